@@ -363,6 +363,7 @@ func init() {
 		if !c.Preload(cfgs...) {
 			return
 		}
+		expFoundations(c) // the exponentiation chains are the same powers in every configuration (E-EXP)
 		progs := map[string]*load.Program{}
 		for _, id := range cfgs {
 			progs[id] = c.Prog(id)
